@@ -4,7 +4,7 @@ import math
 from hypothesis import strategies as st
 
 from .. import gen, procs
-from ..core import Discard, Part, is_raised, relerr, require
+from ..core import Discard, Part, call, is_raised, relerr, require
 from ..observe import EvaluationCap, Trace
 
 ID = "C11"
@@ -39,14 +39,18 @@ def _traced_run(case, s, dt, cond, steps=None):
     return m, list(tr.per_call)
 
 
-def compare(a, b, tol, mass_f, time_f, what, steps=None):
+def compare(a, b, tol, mass_f, time_f, what, steps=None, vac=None):
+    """vac = un-cancelled flux scale of step 0 (permeance x feed partial pressure, i.e. the vacuum flux)."""
     n = steps or len(a.time)
     exact = tol < 1e-12  # power-of-two factor: exact scaling, every quantity compared on its own scale
     tot0 = abs(float(a.partial_fluxes[0][0])) + abs(float(a.partial_fluxes[0][1]))
     for k in range(n):
         tot = abs(float(a.partial_fluxes[k][0])) + abs(float(a.partial_fluxes[k][1]))
-        if not exact and tot < tot0 / 300.0:
-            break  # general factor + driving force decayed below 0.3% of its initial value: rounding amplified beyond the tolerance
+        if not exact and (tot < tot0 / 300.0 or (vac is not None and tot < vac / 300.0)):
+            # general factor + driving force decayed below 0.3% of its initial value, or below 0.3% of the pressures themselves (a
+            # permeate within mK of equilibrium with the feed - thorough seed 6: 6e-5 K, cancellation 1e7): rounding of the scaled
+            # inputs is amplified beyond any fixed tolerance; powers of two stay exact and are still compared
+            break
         for i in (0, 1):
             fa, fb = float(a.partial_fluxes[k][i]), float(b.partial_fluxes[k][i])
             # general factors: inputs differ by rounding, which the (possibly ill-conditioned) solver amplifies step after step;
@@ -84,6 +88,9 @@ def check(case):
         if not all(math.isfinite(float(v)) for v in list(base.feed_mass) + list(base.feed_temperature)):
             raise Discard("non-finite states (C18)")
         sc, k = case["s"], case["k"]
+        v = call(s.pv.calculate_partial_fluxes, feed_temperature=base.feed_temperature[0], composition=base.feed_compositions[0],
+                 first_component_permeance=base.permeances[0][0], second_component_permeance=base.permeances[0][1], calculation_type=case["model"])
+        vac = None if is_raised(v) else abs(float(v[0])) + abs(float(v[1]))
         # (a) size scaling
         cond_a = dict(base_cond, area=base_cond["area"] * sc, amount=base_cond["amount"] * sc)
         tw, ev = _traced_run(case, s, dt, cond_a)
@@ -91,7 +98,7 @@ def check(case):
             require(not _is_pow2(sc), "the model returned, but with area and feed amount x %r (a power of two: exact scaling) it raised %r", sc, tw)
             classes.append("twin-a-raised")
         elif ev == ev0:
-            compare(base, tw, 1e-13 if _is_pow2(sc) else 1e-7, sc, 1.0, "area and amount x %r" % sc)
+            compare(base, tw, 1e-13 if _is_pow2(sc) else 1e-7, sc, 1.0, "area and amount x %r" % sc, vac=vac)
             classes.append("size-pow2" if _is_pow2(sc) else "size-general")
         else:
             classes.append("exit-flip")
@@ -103,7 +110,7 @@ def check(case):
                 require(not _is_pow2(k), "the model returned, but with area x %r and step length / %r (a power of two) it raised %r", k, k, tw)
                 classes.append("twin-b-raised")
             elif ev == ev0:
-                compare(base, tw, 1e-13 if _is_pow2(k) else 1e-7, 1.0, 1.0 / k, "area x %r, step length / %r" % (k, k))
+                compare(base, tw, 1e-13 if _is_pow2(k) else 1e-7, 1.0, 1.0 / k, "area x %r, step length / %r" % (k, k), vac=vac)
                 classes.append("tradeoff-pow2" if _is_pow2(k) else "tradeoff-general")
             else:
                 classes.append("exit-flip")
